@@ -241,7 +241,7 @@ struct Explorer {
             std::vector<T> axis; for (T v = 0; v < side; ++v) axis.push_back(v);
             std::vector<std::pair<P, int>> cells;
             for_cells(axis, [&](const P &pt) { cells.emplace_back(pt, 1); });
-            for (int i = 0; i < tail; ++i) { P far; for (size_t d = 0; d < D; ++d) far[d] = T(side + (D == 2 ? 200 : 60) + (D == 2 ? 37 : 9) * i + 11 * d);   // stays below the encoder limit (2^9 for 3 x uint32) cells.emplace_back(far, 1); }
+            for (int i = 0; i < tail; ++i) { P far; for (size_t d = 0; d < D; ++d) far[d] = T(side + (D == 2 ? 200 : 60) + (D == 2 ? 37 : 9) * i + 11 * d); cells.emplace_back(far, 1); }
             std::string spec = "large:side=" + std::to_string(side) + ":tail=" + std::to_string(tail) + ":chunks=" + std::to_string(p);
             g_chunks = p;
             Built b{};
